@@ -250,6 +250,19 @@ def main(argv):
         pok, theorems, assumptions, pout = compile_props(prop, mod, rundir)
         if not pok:
             broken.append((f"theorems:{mod.PROPS_FILE}", pout[-1500:]))
+    coqchk_note = None
+    if ok and pok and tier == "thorough":
+        # independent re-check of the compiled theorem file and everything it depends on
+        modname = "SA." + mod.PROPS_FILE[:-2].replace("/", ".")
+        p = sh(["timeout", "1500", "coqchk", "-silent", "-o", "-Q", os.path.join(COQDIR, "theories"), "SA", modname])
+        out_chk = p.stdout + p.stderr
+        m = re.search(r"\* Axioms:(.*?)\* Constants/Inductives relying on type-in-type:(.*?)\* Constants/Inductives relying on unsafe \(co\)fixpoints:(.*?)\* Inductives whose positivity is assumed:(.*)", out_chk, re.S)
+        if p.returncode != 0 or not m:
+            broken.append(("coqchk", out_chk[-800:]))
+        else:
+            coqchk_note = "coqchk -o " + modname + ": axioms " + " ".join(m.group(1).split()) + "; type-in-type " + " ".join(m.group(2).split()) + "; unsafe fixpoints " + " ".join(m.group(3).split()) + "; assumed positivity " + " ".join(m.group(4).split())
+            if any(x.strip() != "<none>" for x in m.groups()[1:]):
+                broken.append(("coqchk", coqchk_note))
     # 2. ties
     ties = run_ties(mod, rundir) if ok else []
     for t in ties:
@@ -383,6 +396,8 @@ def main(argv):
     ]
     for name, blk in assumptions.items():
         trusted.append(f"Print Assumptions {name}: {blk}")
+    if coqchk_note:
+        trusted.append(coqchk_note)
     for t in ties:
         trusted.append(f"translator {t['name']} (fail-closed ast whitelist) + tie lemmas {', '.join(t['lemmas'][:6])}{'...' if len(t['lemmas']) > 6 else ''}")
     dist = getattr(mod, "distribution", lambda cs, rs: {})(cases, results)
